@@ -19,7 +19,7 @@ Your task: produce THREE DIFFERENT changes (mutations) to ructe's source under {
   (a) still compiles, and with which the existing test suite still passes (`cd {wt} && CARGO_TARGET_DIR={wt}/target cargo test --offline` : all tests pass),
   (b) BREAKS the property above in a realistic way (the kind of bug a refactoring, an "optimisation", a dependency-upgrade adaptation or a well-meant fix could introduce),
   (c) needs something SPECIFIC to manifest -- an unusual input, a particular size or byte value, a particular position/offset, a multi-step sequence of operations, a particular ordering, a failure at a particular point, or two cooperating code sites that each look fine alone -- and does NOT show up on the most ordinary use (a trivial template / a single small file must still work).
-Avoid the first mutation that comes to mind at the most obvious line: prefer SUBTLE changes (boundary conditions, state carried from one call to the next, error paths, rarely taken branches, interactions between two features, behaviour that depends on what is already on disk or on what came earlier in the input). The three changes must be in different mechanisms / code sites, and each must violate a different clause of the statement if the statement has several.
+{extra}Avoid the first mutation that comes to mind at the most obvious line: prefer SUBTLE changes (boundary conditions, state carried from one call to the next, error paths, rarely taken branches, interactions between two features, behaviour that depends on what is already on disk or on what came earlier in the input). The three changes must be in different mechanisms / code sites, and each must violate a different clause of the statement if the statement has several.
 
 For each change i in {{1,2,3}} write into the directory {wt}/mutants/ :
   - patch{{i}}.diff : the output of `git diff` for that change alone, relative to the unmodified worktree (apply cleanly with `git apply` on a clean checkout),
@@ -33,5 +33,10 @@ for pid, p in props.items():
     if not os.path.isdir(wt):
         subprocess.run(['git', '-C', '/repo', 'worktree', 'add', '--detach', wt, 'HEAD'], check=True, capture_output=True)
     anchors = "; ".join("%s (%s)" % (m['name'], m['where']) for m in p['anchors'].get('mechanism', []))
-    open('/tmp/prompts%s/%s.txt' % (rnd, pid), 'w').write(tmpl.format(wt=wt, pid=pid, title=p['title'], statement=p['statement'], quant=p['quantifier']['text'], anchors=anchors))
+    extra = ""
+    if int(rnd) >= 3:
+        extra = ("Look beyond the functions named above: helper functions, Display / Drop / Default impls, error paths, feature-gated code (sass, mime03, http-types), "
+                 "the code that is copied into the generated crate (src/templates/*.rs), interactions between two public entry points called in sequence, "
+                 "and behaviour that differs between the first and a later run into the same output directory are all fair game, as long as the change breaks THIS property. ")
+    open('/tmp/prompts%s/%s.txt' % (rnd, pid), 'w').write(tmpl.format(wt=wt, pid=pid, title=p['title'], statement=p['statement'], quant=p['quantifier']['text'], anchors=anchors, extra=extra))
 print("ok", len(props))
